@@ -265,6 +265,58 @@ def run(ctx):
     for s in [x for x in pmap(one, asts, workers=8) if x][:6]:
         ctx.sample(s)
     boundary_lengths(ctx, home)
+    arrangements_of_invalid_packages(ctx, home)
+
+
+def arrangements_of_invalid_packages(ctx, home):
+    """'accepts both or rejects both' for packages that break a rule: the same definitions - among them one use of a generic that breaks a rule through its
+    type arguments, next to uses of the same generic that are fine - in every order within one file and distributed over files whose names sort either
+    way. The verdict must not depend on the arrangement (and a control without the offending definition is accepted in every arrangement)."""
+    import itertools
+    families = {
+        "map-key": (["'Lookup<K>': !map {keys: K, values: float}", "Point: !record\n  fields:\n    x: int", "ByName: Lookup<string>", "ById: Lookup<int>"], "ByPoint: Lookup<Point>"),
+        "map-key-in-record": (["'Lookup<K>': !record\n  fields:\n    m: !map {keys: K, values: float}", "Point: !record\n  fields:\n    x: int", "ByName: Lookup<string>"], "ByPoint: Lookup<Point>"),
+        "union-duplicate": (["'Either<A, B>': [A, B]", "Fine: Either<int, string>", "AlsoFine: !record\n  fields:\n    e: Either<float, int>"], "Clash: Either<int, int>"),
+        "array-of-stream": (["'Many<T>': !vector {items: T}", "Fine: Many<int>", "AlsoFine: Many<string>"], "Bad: !protocol\n  sequence:\n    s: !vector\n      items: !stream\n        items: int"),
+    }
+    proto = "P: !protocol\n  sequence:\n    r: int"
+    for fname, (good, bad) in families.items():
+        for with_bad in (True, False):
+            defs = good + ([bad] if with_bad else [])
+            perms = list(itertools.permutations(range(len(defs))))
+            perms = [perms[0], perms[-1]] + perms[1:-1][:: max(1, len(perms) // 6)]
+            verdicts = {}
+            for pi, perm in enumerate(perms):
+                ordered = [defs[i] for i in perm]
+                layouts = {"one-file": {"m.yml": "\n".join(ordered + [proto]) + "\n"}}
+                if pi < 3:
+                    h = len(ordered) // 2
+                    layouts["two-files"] = {"a_first.yml": "\n".join(ordered[:h]) + "\n", "z_last.yml": "\n".join(ordered[h:] + [proto]) + "\n"}
+                    layouts["two-files-swapped"] = {"a_first.yml": "\n".join(ordered[h:] + [proto]) + "\n", "z_last.yml": "\n".join(ordered[:h]) + "\n"}
+                for lname, files in layouts.items():
+                    cdir = os.path.join(ctx.workdir, "cases", "arr_%s_%d_%d_%s" % (fname, with_bad, pi, lname))
+                    shutil.rmtree(cdir, ignore_errors=True)
+                    common.write_tree(cdir, dict({"p/_package.yml": "namespace: Arr\njson:\n  outputDir: ../out\n"}, **{"p/" + k: v for k, v in files.items()}))
+                    p = cli.run_cli("validate", os.path.join(cdir, "p"), home)
+                    ctx.ev()
+                    site = cli.panic_site(p.stderr)
+                    if site:
+                        ctx.violation("panic@%s" % site, "arrangement of %s: crash" % fname, {"case_dir": cdir})
+                        continue
+                    verdicts[(perm, lname)] = (p.rc, cdir)
+            ctx.case(("invalid-arrangements", fname, with_bad))
+            ctx.count("invalid-arrangements.%s" % ("with-violation" if with_bad else "control"))
+            rcs = sorted(set(v[0] for v in verdicts.values()))
+            if len(rcs) > 1:
+                acc = [k for k, v in verdicts.items() if v[0] == 0][0]
+                rej = [k for k, v in verdicts.items() if v[0] != 0][0]
+                ctx.violation("verdict-depends-on-arrangement:%s" % fname, "the same definitions (%s, %s the rule-breaking one) are accepted in the arrangement %s and rejected in %s" % (
+                    fname, "with" if with_bad else "without", acc, rej), {"accepted": verdicts[acc][1], "rejected": verdicts[rej][1]})
+            elif not with_bad and rcs != [0]:
+                ctx.violation("control-rejected:%s" % fname, "the valid definitions of family %s are rejected" % fname, {"case_dir": list(verdicts.values())[0][1]})
+            else:
+                for _, cdir in verdicts.values():
+                    shutil.rmtree(cdir, ignore_errors=True)
 
 
 def boundary_lengths(ctx, home):
